@@ -518,6 +518,14 @@ impl<T: Copy> Buffer<T> {
             n
         );
         for tag in tags {
+            if tag.pos() >= n {
+                // Tag on a sample that is not part of this commit. Several
+                // blocks pass on the tag list of their whole input window while
+                // committing only part of it; storing such a tag would attach
+                // it to whatever sample is written there later, and it would
+                // be delivered again when its own sample is processed.
+                continue;
+            }
             let pos = (tag.pos() + s.wpos) % s.capacity();
             let tag = Tag::new(pos, tag.key(), tag.val().clone());
             s.tags.entry(pos).or_default().push(tag);
